@@ -1,7 +1,7 @@
 ---------------------------- MODULE Trace_Types ----------------------------
 (* Validation of observations recorded from the real type-hint adapter (code -> spec), C02 and C10.       *)
 (* TRACE_FILE holds [obs |-> << ... >>]; an observation is one of                                         *)
-(*   [kind |-> "parse", t, d, clash, x, ok, v]   one parse of one key of type t (default d) with input x through *)
+(*   [kind |-> "parse", t, d, x, ok, v]   one parse of one key of type t (default d) with input x through *)
 (*        parse_object({key: x}) or parse_args(["--key=" + text]): accepted?, and the resulting value;    *)
 (*   [kind |-> "fix", t, d, absent, norm, x, first, vok, sok, second, draised, rok, dsame, ser, ser2,      *)
 (*    jdraised, jrok, jdsame, jser, jser2]   `first` is the accepted result for input x (a value, or a    *)
@@ -44,10 +44,9 @@ Init == i \in 1..N
 Next == UNCHANGED i
 
 Say(kind, idx, clause) == PrintT(<<"R", kind, idx, clause>>)
-DevStr(d) == (IF "excLeak" \in d THEN "+excLeak" ELSE "") \o (IF "origNested" \in d THEN "+origNested" ELSE "")
+DevStr(d) == (IF "origNested" \in d THEN "+origNested" ELSE "")
              \o (IF "inPlace" \in d THEN "+inPlace" ELSE "") \o (IF "setListing" \in d THEN "+setListing" ELSE "")
-             \o (IF "validateLeak" \in d THEN "+validateLeak" ELSE "") \o (IF "rawDefault" \in d THEN "+rawDefault" ELSE "")
-             \o (IF "clashKey" \in d THEN "+clashKey" ELSE "")
+             \o (IF "validateLeak" \in d THEN "+validateLeak" ELSE "") \o (IF "dumpLeak" \in d THEN "+dumpLeak" ELSE "") \o (IF "rawDefault" \in d THEN "+rawDefault" ELSE "")
              \o (IF "litEq" \in d THEN "+litEq" ELSE "") \o (IF "dictKey" \in d THEN "+dictKey" ELSE "")
              \o (IF "serCollision" \in d THEN "+serCollision" ELSE "") \o (IF "yamlFloatStr" \in d THEN "+yamlFloatStr" ELSE "")
              \o (IF "serLenient" \in d THEN "+serLenient" ELSE "") \o (IF "jsonKeyCollision" \in d THEN "+jsonKeyCollision" ELSE "") \o (IF "leftObject" \in d THEN "+leftObject" ELSE "") \o (IF "leftSet" \in d THEN "+leftSet" ELSE "")
@@ -58,10 +57,10 @@ CheckParse(n) ==
       ty  == T(o.t)
       inp == V(o.x)
       out == V(o.v)
-      \* d: the default of the argument; clash: the argument is named like a Namespace method and the value came as an object
-      a   == IF o.clash THEN AlgParseClash(ty, inp, V(o.d)) ELSE AlgParse(ty, inp, V(o.d))
+      a   == AlgParse(ty, inp, V(o.d))                                              \* d: the default of the argument
       refOK == o.ok = Accepts(ty, inp) /\ (o.ok => (Canon(out) \in {Canon(r) : r \in TopResults(ty, inp)} /\ ConformsTop(ty, out)))
-      algOK == o.ok = a.ok /\ (o.ok => Canon(out) = Canon(a.v))
+      algOK == "setListing" \in a.dev                                                \* a set was listed where the order shows: any order, any outcome
+               \/ (o.ok = a.ok /\ (o.ok => Canon(out) = Canon(a.v)))
   IN /\ refOK \/ Say("parse", n, IF algOK /\ Devs(a) # {} THEN "ref/as-alg/" \o DevStr(Devs(a)) ELSE "ref/other/" \o DevStr(a.dev))
      /\ algOK \/ Say("parse", n, "alg")
 
@@ -69,11 +68,25 @@ CheckParse(n) ==
 RECURSIVE SerMatch(_, _)
 SerMatch(sp, ob) ==
   CASE sp.k = "bag"  -> ob.k = "list" /\ Len(ob.v) = Len(AsSeq(sp))                       \* as multisets
-                        /\ \A e \in DOMAIN sp.v : Cardinality({n \in 1..Len(ob.v) : SerMatch(e, ob.v[n])}) = sp.v[e]
+                        /\ \A e \in DOMAIN sp.v : IF e.k = "anystr" THEN Cardinality({n \in 1..Len(ob.v) : ob.v[n].k = "str"}) >= sp.v[e]
+                                                  ELSE Cardinality({n \in 1..Len(ob.v) : SerMatch(e, ob.v[n])}) = sp.v[e]
     [] sp.k \in {"list", "tuple"} -> ob.k = "list" /\ Len(ob.v) = Len(sp.v) /\ \A n \in 1..Len(sp.v) : SerMatch(sp.v[n], ob.v[n])   \* a tuple is written as a list
     [] sp.k = "dict" -> ob.k = "dict" /\ Len(ob.v) = Len(sp.v)                           \* (json writes every key as a string)
                         /\ \A p \in Range(sp.v) : \E q \in Range(ob.v) : (p[1] = q[1] \/ StrOfInt(p[1]) = q[1]) /\ SerMatch(p[2], q[2])
+    [] sp.k = "anystr" -> ob.k = "str"                                                    \* str() of something the model does not spell
     [] OTHER -> sp = ob
+
+\* the configuration after a dump against the predicted one: what was serialised in place is a list in no particular
+\* order where it was a set; everything else is the value it was
+RECURSIVE LeakMatch(_, _)
+LeakMatch(sp, ob) ==
+  CASE sp.k = "bag"  -> ob.k = "list" /\ Len(ob.v) = Len(AsSeq(sp))
+                        /\ \A e \in DOMAIN sp.v : IF e.k = "anystr" THEN Cardinality({n \in 1..Len(ob.v) : ob.v[n].k = "str"}) >= sp.v[e]
+                                                  ELSE Cardinality({n \in 1..Len(ob.v) : LeakMatch(e, ob.v[n])}) = sp.v[e]
+    [] sp.k \in {"list", "tuple"} -> ob.k = sp.k /\ Len(ob.v) = Len(sp.v) /\ \A n \in 1..Len(sp.v) : LeakMatch(sp.v[n], ob.v[n])
+    [] sp.k = "dict" -> ob.k = "dict" /\ Len(ob.v) = Len(sp.v) /\ \A p \in Range(sp.v) : \E q \in Range(ob.v) : p[1] = q[1] /\ LeakMatch(p[2], q[2])
+    [] sp.k = "anystr" -> ob.k = "str"
+    [] OTHER -> Canon(sp) = Canon(ob)
 
 \* the tree has a set with two or more members: dump writes them in the order in which Python happens to list the set
 RECURSIVE MultiBag(_)
@@ -85,7 +98,7 @@ MultiBag(sp) == CASE sp.k = "bag" -> Cardinality(DOMAIN sp.v) > 1
 
 \* deviations of a re-parse that change its outcome (litEq / dictKey return the value they were given; litEq is
 \* offered as a reason only when nothing else is, see d2 below)
-Causal == {"inPlace", "excLeak", "origNested", "setListing", "firstMatch", "validateLeak"}
+Causal == {"inPlace", "origNested", "setListing", "firstMatch", "validateLeak"}
 CheckFix(n) ==
   LET o   == Obs[n]
       ty  == T(o.t)
@@ -105,8 +118,14 @@ CheckFix(n) ==
       \* both dumps are the predicted tree and differ only in the order of the members of a set
       reorder(ok, s1, s2) == ok /\ s.ok /\ MultiBag(s.v) /\ SerMatch(s.v, V(s1)) /\ SerMatch(s.v, V(s2))
       \* what the Alg layer offers as the reason: the dumper raised / the order of a set / something on the way dump -> parse
+      \* dump changed the configuration exactly as AfterDump says (dumpLeak)
+      leaked == Canon(V(o.after)) # Canon(fst) /\ MutableBelowTuple(fst, FALSE) /\ LeakMatch(AfterDump(ty, fst), V(o.after))
+      inst == {V(o.inst[m]) : m \in 1..Len(o.inst)}          \* the numbers / texts of the result that are instances of a restricted class
       why(raised, cannotWrite, notThisFormat, ok, s1, s2) ==
-        IF raised THEN (IF s.dev \cap cannotWrite # {} THEN "/as-alg/" \o DevStr(s.dev \cap cannotWrite) ELSE "/other")
+        IF raised THEN (IF s.dev \cap cannotWrite # {} THEN "/as-alg/" \o DevStr(s.dev \cap cannotWrite)
+                        ELSE IF "yamlFloatStr" \in notThisFormat THEN "/other"                               \* (json writes such an instance)
+                        ELSE IF Lefts(ty, StripMeta(fst)) \cap inst # {} THEN "/as-alg/+leftInstance"
+                        ELSE "/other")
         ELSE IF fst = NoneV /\ dd # NoneV THEN "/as-alg/+noneOverDefault"                 \* dump leaves None out, the re-parse fills in the default
         ELSE IF reorder(ok, s1, s2) THEN "/as-alg/+setOrder"
         ELSE IF "setListing" \in s.dev \cup rd THEN "/as-alg/+setListing"               \* a set is listed where the order shows: any outcome
@@ -125,9 +144,13 @@ CheckFix(n) ==
                            ELSE "ref/second/other")
      \* ... and the same again on the SAME object after validate(cfg) and dump(cfg): dump must not touch the configuration
      \* it is given, and the result is still a fixed point afterwards (values are normalised exactly once)
-     /\ Canon(V(o.after)) = Canon(fst) \/ Say("fix", n, "ref/after-dump")
+     /\ Canon(V(o.after)) = Canon(fst)
+          \/ Say("fix", n, IF leaked THEN "ref/after-dump/as-alg/+dumpLeak" ELSE "ref/after-dump/other")
      /\ (o.tok /\ Canon(V(o.third)) = Canon(fst))
           \/ Say("fix", n, IF "setListing" \in b.dev THEN "ref/third/as-alg/+setListing"
+                           \* what dump left in the configuration (dumpLeak) is what is parsed now
+                           ELSE IF leaked /\ LET r3 == AlgParse(ty, V(o.after), dd)
+                                             IN "setListing" \in r3.dev \/ (r3.ok = o.tok /\ (o.tok => Canon(r3.v) = Canon(V(o.third)))) THEN "ref/third/as-alg/+dumpLeak"
                            ELSE IF (b.dev \cup fd) # {} /\ b.ok = o.tok /\ (b.ok => Canon(b.v) = Canon(V(o.third))) THEN "ref/third/as-alg/" \o DevStr(b.dev \cup fd)
                            ELSE "ref/third/other")
      /\ (o.rok /\ o.dsame) \/ Say("fix", n, "ref/dump" \o why(o.draised, {"leftObject"}, {"jsonKeyCollision"}, o.rok, o.ser, o.ser2))
